@@ -25,6 +25,9 @@ From FB.Model Require Import Types Monad CreatedFiles SimpleOps Builder.
 From FB.Spec Require Import JsonSpec Prog Ref Oracle.
 From FB.Model Require Import Persist Core CoreOracle CoreCache.
 From FB.Proofs Require Import ReplayLaws BuildFileLaws CoreRebuildDefs CoreRebuildMain CoreRebuildIter.
+(* T1g: Model/BuildDirs.v and Model/CreatedFiles.v are equal to the translation of build_dirs.py / created_files.py
+   (Gen/BookGen.v, regenerated on every run); a change of those sources that the model does not follow breaks this import *)
+From FB.Proofs Require BookGenLaws.
 Import ListNotations.
 
 Theorem C05_unchanged_rebuild_hits_everything : forall fs cf old vers clock nextid root nm v s1 clock' nextid',
